@@ -96,11 +96,14 @@ def column_case(case):
         present = [r for r in col if r is not None]
         mn = codec.min_nbinc(max(present) - min(present)) if present else 1
         widths = sorted({mn, mn + 1, mn + 2} | {x for x in (8, 16, 32, 63) if x >= mn})
+    elif kind != 'str' and col[0] is not None:
+        # a constant column: width 0, and written the long way (a non-zero width with all-zero increments)
+        widths = [None, 1, 2, 8, 63]
     else:
         widths = [None]
     for nb in widths:
         try:
-            buf_c, subs_c, notes_c, nbs = ref_encode(True, ('abs', nb) if nb else ('extra', 0))
+            buf_c, subs_c, notes_c, nbs = ref_encode(True, ('force', nb) if nb else ('extra', 0))
         except ValueError:
             continue
         b, info = message.build(spec_c, buf_c)
@@ -248,13 +251,23 @@ def _bothways_judge(descs, nsub, subs, b):
         d = S.compare_subsets(dec[True], subs)
         if d:
             res['viol'] = ('bothways-vs-reference:' + d[0], d[1])
+    if 'viol' not in res and b is not None:
+        # the reference model's own compressed form of the same subsets (its choice of difference widths, constant
+        # structure columns possibly written the long way) must read back as the same data
+        st = S.impl_decode(CC.decoder(), b)
+        if st[0] == 'exc':
+            res['viol'] = ('reference-form-decode-raises:' + st[1], st[2][:200])
+        else:
+            d = S.compare_subsets(st[1], subs)
+            if d:
+                res['viol'] = ('reference-form:' + d[0], d[1])
     return res
 
 
 def bothways_body(descs, env):
     def body(ctx):
         try:
-            b, spec, subs, notes = S.build_message(ctx, descs, nsub=env['nsub'], compressed=True)
+            b, spec, subs, notes = S.build_message(ctx, descs, nsub=env['nsub'], compressed=True, struct_nbinc=True)
         except codec.RefError as e:
             return {'outcome': ('ref-error',), 'skip': 'ref:' + str(e)[:60]}
         if notes:
